@@ -43,9 +43,11 @@ GEN.append("~V\nVERS. 2.0:\nWRAP. NO:\n~W\nSTRT.M 1:\nSTOP.M 3:\nSTEP.M 1:\nNULL
                                             for r, w in ((1, "SAND-SHALE"), (2, "SHALE"), (3, "LIME-DOLO-MIX"))))
 GEN.append("~V\nVERS. 2.0:\nWRAP. NO:\n~W\nSTRT.M 1:\nSTOP.M 2:\nSTEP.M 1:\nNULL. -999.25:\n~C\nDEPT.M:\nGR.:\n~P\n"
            "BS  .8.5     216 : a decimal number as unit, widest item of its section\nRM.0.5 2 : another\n~A\n1 1\n2 2\n")
-for _w in ("TPL. {0} : plain description", "BRC. x : a lone { brace", "SET. {a,b} : {c}", "PCT. 50% : %s %d %(x)s 100%",
+for _w in ("EGL.FEETABOVEMEANSEALEVEL  : an empty value with a unit, widest item of its section", "TPL. {0} : plain description", "BRC. x : a lone { brace", "SET. {a,b} : {c}", "PCT. 50% : %s %d %(x)s 100%",
            "GUID. {WELL_NAME} : registry format", "ESC. C\\data\\new : back\\slashes \\n \\t"):
     GEN.append("~V\nVERS. 2.0:\nWRAP. NO:\n~W\nSTRT.M 1:\nSTOP.M 2:\nSTEP.M 1:\nNULL. -999.25:\n" + _w + "\n~C\nDEPT.M:\nGR.:\n~A\n1 1\n2 2\n")
+GEN.append("~V\nVERS. 2.0:\nWRAP. NO:\nDLM. COMMA: declared delimiter\n~W\nSTRT.M 1:\nSTOP.M 3:\nSTEP.M 1:\nNULL. -999.25:\n~C\nDEPT.M:\nZONE.:\nGR.:\n~A\n"
+           "1.0,pick gamma,5.5\n2.0,shale,-999.25\n3.0,lime stone bed,7.5\n")
 _WORDS = ["SAND-SHALE", "A-B", "LIME-DOLO-MIX", "X-Y-Z-W", "SILT", "COAL-1"]
 GEN.append("~V\nVERS. 2.0:\nWRAP. NO:\n~W\nSTRT.M 1:\nSTOP.M 4:\nSTEP.M 1:\nNULL. -999.25:\n~C\nDEPT.M:\n"
            + "".join("N%d.:\nT%d.:\n" % (j, j) for j in range(1, 7)) + "~A\n"
@@ -98,8 +100,9 @@ def run(ctx):
     skipped = 0
     for name, text in sources:
         optsets = OPTS if thorough else [OPTS[0]] + rng.sample(OPTS[1:], 2)
-        if "DLM" in text[:600].upper() and OPTS[-1] not in optsets:
-            optsets = optsets + [OPTS[-1]]          # a declared delimiter and a tab spacer in wrapped output
+        if "DLM" in text[:600].upper():
+            # a declared delimiter: a tab spacer in wrapped output, and a comma spacer
+            optsets = optsets + [o for o in (OPTS[-1], {"spacer": ","}) if o not in optsets]
         for kw in optsets:
             # (generated inputs are also cycled as read with mnemonic_case preserve / lower)
             rk = {} if not name.startswith("gen") or "#mut" in name else {"mnemonic_case": ["upper", "preserve", "lower"][len(events) % 3]}
